@@ -127,7 +127,7 @@ def read_rows(res):
 
 
 def enumerate_tlc(run, alpha, gen, maxlen, name, workers):
-    res = run.tlc("MC_Escape", mc_cfg(maxlen), name=name, workers=workers, timeout=2400,
+    res = run.tlc("MC_Escape", mc_cfg(maxlen), name=name, workers=workers, timeout=2400, heap="3g",
                   extra_files={"EscapeInput.tla": input_module(alpha, gen, [])})
     return res, read_rows(res)
 
@@ -530,7 +530,7 @@ def validate(run, cases, alpha_chars, name, workers):
     chars = sorted(set(alpha_chars) | {c for k in cases for c in text_of(k["s"])})
     # references in observed outputs may name characters too: the decoders need their facts only if they
     # are inputs, which they are (every reference emitted stands for an input character)
-    res = run.tlc("Trace_Escape", TRACE_CFG, name=name, workers=workers, timeout=1200, count=False, expect_ok=False,
+    res = run.tlc("Trace_Escape", TRACE_CFG, name=name, workers=workers, timeout=1200, count=False, expect_ok=False, heap="2g",
                   extra_files={"EscapeInput.tla": input_module(chars, [], cases)})
     if res.violated or not res.completed:
         raise MachineryError("trace validation %s failed: %s\n%s" % (name, res.violated, res.out[-2500:]))
@@ -642,7 +642,7 @@ def check(run):
         exp = rrows[(name_of(rep),)]
         other = chr(sorted(classes[k0])[1])
         run.negative_control(instantiate(exp["u"], rep, other, "u") != text_of(exp["u"]) and
-                             real_outputs(other)["u"] == instantiate(exp["u"], rep, other, "u"),
+                             instantiate(exp["enc"]["ascii"], rep, other, "enc") != text_of(exp["enc"]["ascii"]),
                              "class shape instantiation does not distinguish members")
 
     # ---------------------------------------------------------------- 4. V: random strings, judged by TLC
